@@ -82,7 +82,7 @@ extern "C" {
 
 [[maybe_unused]] JNIEXPORT {{ type_def.jni.return_type_spec }} JNICALL {{ type_def.jni.jni_prefix }}CppProxy_nativeInvoke(JNIEnv* jniEnv, jobject /*this*/, jlong nativeRef
     /*>- for parameter in type_def.parameters -*/
-    , {{ parameter.type_ref.type_def.jni.typename.value }} {{ parameter.jni.name }}
+    , {{ parameter.jni.typename }} {{ parameter.jni.name }}
     /*>- endfor -*/
     ) noexcept {
     ::pydjinni::jni::Jni jni { jniEnv };
